@@ -47,13 +47,28 @@ Definition opt_val_eqb (a b : option val) : bool :=
   match a, b with None, None => true | Some x, Some y => veq_strict x y | _, _ => false end.
 Definition take_new (new old : list nat) : list nat := firstn (length new - length old) new.
 
+(* dict iteration results are compared up to order: key order after reloads / bulk updates is unspecified (C03) - and since
+   repair 025a20d a root reset by an object that was not bound to the shared container MERGES into it (existing keys keep
+   their place), where the flat model replaces the content *)
+Definition bperm_eqb (l m : list val) : bool :=
+  Nat.eqb (length l) (length m)
+  && forallb (fun x => Nat.eqb (length (filter (veq_strict x) l)) (length (filter (veq_strict x) m))) l.
+Definition border_free (o : bop) : bool :=
+  match o with
+  | BOp _ _ (OD DKeys) | BOp _ _ (OD DIter) | BOp _ _ (OD DValues) | BOp _ _ (OD DItems) => true
+  | _ => false
+  end.
+
 (* reason codes: 2 result, 4 files, 5 writes, 6 size, 7 capacity, 8 buffered set, 9 model rejected *)
 Definition check_bstep (st : strategy) (s : bstate) (k : bkstep) : bstate + nat :=
   let (s', r) := bstep_fn st blen_json s (bk_op k) in
   let res_ok :=
     match bk_exp k, r with
     | XAny, _ => true
-    | XOk v, BOk w => veq_strict w v
+    | XOk v, BOk w =>
+        if border_free (bk_op k) then
+          match v, w with VL l, VL m => bperm_eqb l m | _, _ => veq_strict w v end
+        else veq_strict w v
     | XErr e, BErr f => err_eqb e f
     | XMetaE f, BExn (XMeta g) => Nat.eqb f g
     | XBufE fs, BExn (XBuf gs) => same_set fs gs
